@@ -154,11 +154,11 @@ int main (int argc, char **argv)
 	vh_init (argc, argv, "c01_roundtrip", "C01") ;
 	vh_enum_formats () ;
 	for (f = 0 ; f < vh_nfmts ; f++)
-	{	int chs [8], nch ;
+	{	int chs [12], nch ;
 		if (vh_fmts [f].major == SF_FORMAT_SD2) continue ;		/* needs a real path (resource fork): covered by C14 */
 		for (e = 0 ; e < 4 ; e++)
 		{	int format = vh_fmts [f].format | endians [e] ;
-			nch = vh_channels_for (format, chs, 8, vh_thorough) ;
+			nch = vh_channels_for (format, chs, 12, vh_thorough) ;
 			for (c = 0 ; c < nch ; c++) for (t = 0 ; t < T_N ; t++)
 			{	int ch = chs [c], lz = lowzero_bits (format, t), B, rate = 8000, nN = 0 ; long Ns [40] ;
 				if (lz < 0) continue ;
